@@ -566,7 +566,7 @@ func genSeqOps(r *Rand, styleOnly bool) string {
 		case 1:
 			ops = append(ops, "B:"+hx(r.Pick([]string{"other.", "other", "", "o1", "o-", "x#", "foo1.", "a,"})))
 		case 2:
-			ops = append(ops, "E:"+hx(r.Pick([]string{".jpg", "jpg", "", ".tar.gz", "1", ".#"})))
+			ops = append(ops, "E:"+hx(r.Pick([]string{".jpg", "jpg", "", ".tar.gz", "1", ".#", "..bak", "...", ".", "a.b", ".x/y"})))
 		case 3:
 			ops = append(ops, "P:"+hx(r.Pick(append(padToks, "", "abc", "%d%d"))))
 		case 4:
